@@ -814,7 +814,7 @@ impl Mon {
         // C06 freshness
         let reqs: Vec<(u32, crate::interp::Req)> = w.runs[idx].out.reqs.iter().map(|(k, v)| (*k, v.clone())).collect();
         for (id, _) in &reqs {
-            if *id <= self.max_id[peer] {
+            if *id <= self.max_id[peer] && self.on("C06") {
                 let dd = format!("peer {peer} eid {eid}: request id {id} <= an id handed out before ({})", self.max_id[peer]);
                 self.report(w, Some(idx), "C06", "id-not-fresh", dd);
                 return;
@@ -826,7 +826,7 @@ impl Mon {
                 self.nontrivial.insert(hash64(&format!("ids{peer}{mx}{}", reqs.len())));
             }
         }
-        if d.last_call_request_id < self.last_lcid[peer] || d.last_call_request_id < self.max_id[peer] {
+        if (d.last_call_request_id < self.last_lcid[peer] || d.last_call_request_id < self.max_id[peer]) && self.on("C06") {
             let dd = format!("peer {peer} eid {eid}: last_call_request_id {} went below {} / {}", d.last_call_request_id, self.last_lcid[peer], self.max_id[peer]);
             self.report(w, Some(idx), "C06", "lcid-regressed", dd);
             return;
@@ -848,6 +848,13 @@ impl Mon {
             let k = inst_key(rq);
             if self.analysis.calls.get(&rq.function).map(|c| c.multi).unwrap_or(false) {
                 continue; // the last instruction of a stream fold runs once per generation
+            }
+            // two different call instances of one peer under one id: the host answers by id, so one of them can never
+            // get its own result (it is lost or lands at the other call)
+            if let Some((other_key, oeid)) = self.issued[peer].iter().find_map(|(k2, v)| if *k2 != k { v.iter().find(|(i, _)| i == id).map(|(_, e)| (k2.clone(), *e)) } else { None }) {
+                let dd = format!("peer {peer} eid {eid}: call instance {k} is requested under id {id}, which call instance {other_key} already got at eid {oeid}");
+                self.report(w, Some(idx), "C05", "id-shared-by-two-calls", dd);
+                return;
             }
             let olds = self.issued[peer].get(&k).cloned().unwrap_or_default();
             for (old, oeid) in olds {
